@@ -821,12 +821,16 @@ class _ExecutorManagerThread(threading.Thread):
         # Mark the process pool broken so that submits fail right now.
         self.executor_flags.flag_as_broken(bpe)
 
-        # Mark pending tasks as failed.
-        for work_item in self.pending_work_items.values():
+        # Mark pending tasks as failed. Items are removed one by one as the
+        # queue feeder thread can concurrently remove items from this dict.
+        while self.pending_work_items:
+            try:
+                _, work_item = self.pending_work_items.popitem()
+            except KeyError:
+                break
             work_item.future.set_exception(bpe)
             # Delete references to object. See issue16284
             del work_item
-        self.pending_work_items.clear()
 
         # Terminate remaining workers forcibly: the queues or their
         # locks may be in a dirty state and block forever.
